@@ -278,7 +278,7 @@ MANIFEST_TEXT.update({
                       "Every bin of GetCDF compared with Kahan-summed long-double partial sums (exact class: rounding bound, monotone, last bin == 1; approx class: "
                       "bit-identical for n <= 100, last bin == 1, within 0.01 for n >= 1000 and alpha in [0,3]).", "DESIGN.md 5/C18",
                       "property-based testing: differential check of GetCDF against an independent long-double reference over generated (n, alpha, type, min)"),
-    "C19": _pure_text("rapidcheck generators (harness/zipf_harness)",
+    "C19": _pure_text("rapidcheck generators (harness/zipf_harness; second stage: the same worker built with -fsanitize=thread)",
                       "Metamorphic/differential: twins, copies, moved and re-sampled generators give identical sequences from identical engine states; a shared const "
                       "generator (sampled before or not) gives each of 2-8 threads its solo sequence and GetCDF values, also under ThreadSanitizer (no data race inside the "
                       "const calls); copies survive re-assignment/destruction of their source; max < min throws.", "DESIGN.md 5/C19",
